@@ -311,6 +311,20 @@ def gen_block(rng, focus, dflt, tag, base=None):
         pall = prmspace.all_leaves_poison(rng, dflt, avoid_leaves=full)
         ops += [['reset', None], ['poison', _leaves_json(pall)],
                 ['percall', _leaves_json(full), [], f'{tag}:F']]
+    if rng.random() < 0.5:
+        # a per-call dict that names EVERY top-level key but only one leaf of each nested
+        # section, over a global poisoned on every leaf: the un-named nested leaves must come
+        # from the global, not from anywhere else
+        top = {}
+        for key, val in dflt.items():
+            if isinstance(val, dict):
+                q = rng.choice([q for q in leaf_paths(dflt) if q[0] == key])
+                top[q] = a.get(q, get_path(dflt, q))
+            else:
+                top[(key,)] = a.get((key,), val)
+        pall2 = prmspace.all_leaves_poison(rng, dflt, avoid_leaves=top)
+        ops += [['reset', None], ['poison', _leaves_json(pall2)],
+                ['percall', _leaves_json(top), [], f'{tag}:T']]
     # reach: for up to 3 poisoned leaves, is the leaf live for (scene, A, w)?
     ops.append(['reset', None])
     probe_paths = list(p)
